@@ -63,6 +63,9 @@ type recorder struct {
 	hist  map[int][]Event // by unique request serial
 	slot  map[int]int     // serial -> slot
 	trace *vh.Writer
+	// deadCtx: contexts derived by stages (setCtx) are cancelled ones (server chains only: the client's
+	// transport legitimately refuses to send with a cancelled context)
+	deadCtx bool
 }
 
 func (r *recorder) emit(u int, e Event) {
@@ -190,6 +193,11 @@ func interp[M any, R any](rec *recorder, s int, prog []string, ctx context.Conte
 			msg = replace(msg, u, s)
 		case "setCtx":
 			ctx = context.WithValue(ctx, ctxTok{}, s)
+			if rec.deadCtx { // variant: the derived context is already cancelled; the chain itself must not care
+				c, cancel := context.WithCancel(ctx)
+				cancel()
+				ctx = c
+			}
 		case "ret":
 			k, f := res(last, lastErr)
 			rec.emit(u, Event{E: "exit", S: s, K: k, F: f})
@@ -333,6 +341,23 @@ func build(rec *recorder, kind string, chain []string) (system, error) {
 
 var kinds = []string{"client", "srvmsg", "srvitem"}
 
+type kindVariant struct {
+	kind string
+	dead bool
+}
+
+// every chain runs on the three real chains; chains that derive contexts additionally run on the two
+// server chains with derived contexts that are already cancelled
+func kindVariants(chain []string) []kindVariant {
+	kv := []kindVariant{{"client", false}, {"srvmsg", false}, {"srvitem", false}}
+	for _, p := range chain {
+		if p == "newctx" || p == "thrice" {
+			return append(kv, kindVariant{"srvmsg", true}, kindVariant{"srvitem", true})
+		}
+	}
+	return kv
+}
+
 func eventsEqual(kind string, got, exp []Event) bool {
 	if len(got) != len(exp) {
 		return false
@@ -366,8 +391,9 @@ func TestReplay(t *testing.T) {
 	runs, mism := 0, 0
 	u := 0
 	for n, c := range cases {
-		for _, kind := range kinds {
-			rec := &recorder{hist: map[int][]Event{}, slot: map[int]int{}}
+		for _, kv := range kindVariants(c.Chain) {
+			kind := kv.kind
+			rec := &recorder{hist: map[int][]Event{}, slot: map[int]int{}, deadCtx: kv.dead}
 			sys, err := build(rec, kind, c.Chain)
 			if err != nil {
 				t.Fatal(err)
@@ -383,7 +409,7 @@ func TestReplay(t *testing.T) {
 				expK, expF := c.Final[0].(string), int(c.Final[1].(float64))
 				if !eventsEqual(kind, got, c.Hist) || k != expK || f != expF {
 					mism++
-					out.Emit(map[string]any{"case": n, "kind": kind, "rep": rep, "chain": c.Chain,
+					out.Emit(map[string]any{"case": n, "kind": kind, "rep": rep, "chain": c.Chain, "deadctx": kv.dead,
 						"expect": map[string]any{"hist": c.Hist, "final": c.Final},
 						"got":    map[string]any{"hist": got, "final": []any{k, f}}})
 					break
